@@ -226,6 +226,8 @@ def rand_universe(rng, o=None, uid=0):
         ns = nss[0] if base is None else next(t['ns'] for t in types if t['name'] == base)
         if base is None and rng.random() < .5:
             ns = rng.choice(nss)
+        if base is not None and getattr(o, 'cross_ns_inheritance', False) and rng.random() < .4:
+            ns = rng.choice(nss)          # a class that extends a class of another namespace: inherited members stay in the namespace that declares them
         types.append({'name': name, 'ns': ns, 'base': base, 'fields': fields, 'has_xmldata': has_xmldata})
     services = []
     mno = 0
